@@ -133,6 +133,14 @@ def run_case(case, ctx, mon):
     boundary = False
     touched = {}
     for n_op, op in enumerate(case["ops"]):
+        if n_op == 1 and case["draw_seed"] % 5 == 0:
+            # both sketches go through save() / load() first: entry points must agree on a *loaded* object too
+            L2, R2 = state.save_load(L, kind, False, False), state.save_load(R, kind, False, bool(kind in state.CMS_KINDS))
+            if is_log:
+                state.share_draws(L, L2)
+                state.share_draws(L, R2)
+            L, R = L2, R2
+            mon.count("cases_continued_on_loaded_sketches")
         if op[0] == "ulist_bad":
             # an interrupted batch call: the sketch must be left as the loop of single adds would leave it when it hits the
             # same unacceptable item (everything before it applied), or untouched
